@@ -7,7 +7,6 @@ import props as P
 NOT_APPLICABLE = {
     'C11': 'rejection "by the compiler" is decided by rustc const evaluation / trait solving on text emitted through format!: no obligation a program verifier (Verus, Kani) can generate; DESIGN.md 5.11',
     'C14': 'Send/Sync of the generated record type is inferred by rustc from field types: there is no executable code to put under contract; Kani has no threads; DESIGN.md 5.14',
-    'C19': 'determinism is a two-run hyperproperty; it is a contract only as result = F(inputs) with F a spec function, and no such spec of simple()/generate() is within reach; cross-process state is outside both verifiers; DESIGN.md 5.19',
 }
 PENDING = 'machinery for this property is not built yet (planned decision in DESIGN.md 0); not claimed until its check runs'
 
@@ -23,6 +22,7 @@ TECH = {
     'C07': 'Kani: contract of the four storage primitives under symbolic placement + bare-buffer probes + call-site receiver classification of generated modules',
     'C15': 'Kani: contracts of the generated Serialize / Deserialize impls on a real generated module, against an in-harness implementation of serde\'s data model (not serde_json / bincode)',
     'C17': 'bounded stand-in only (no verifier reaches the syn/quote string pipeline): native execution over a grammar of 2400 types, names compared with the source tokens of the type',
+    'C19': 'bounded stand-in only (two-run property over functions no verifier reaches): every history within a bound replayed twice in-process and in two processes, outputs compared',
     'C20': 'bounded stand-in only (no verifier reaches the function): native bounded-exhaustive execution of convert_record_definition against its postcondition',
     'C16': 'Kani: contracts of generated clone / clone_from on real generated modules (corpus)',
     'C13': 'Verus: panic-freedom of the text rendering under the variant invariant; Kani: panic-freedom and bounds of max_size / max_type_align on every builder-reachable state (bounded)',
